@@ -457,7 +457,7 @@ class TSolver(T):
     """pysmt Solver / z3 Solver / z3 Optimize ghost state (DESIGN §3 TB-solver)"""
 
     def fresh(self, name, st):
-        ref = st.alloc({"kind": "solver", "A": st.fresh_const(name + "!A", L.WSet), "pushed": [], "base": name, "S": st.fresh_const(name + "!S", L.LForm.sort), "pushedS": []})
+        ref = st.alloc({"kind": "solver", "A": st.fresh_const(name + "!A", L.WSet), "pushed": [], "base": name, "S": st.fresh_const(name + "!S", L.LForm.sort), "pushedS": [], "soft": st.fresh_const(name + "!soft", z3.SetSort(z3.DeclareSort("Clause")))})
         return VRef(ref, self)
 
 
